@@ -243,3 +243,53 @@ def _(subidentifier: Nat) -> IntList:
     loop(0, invariant=[subidentifier >= 0,
                        encoded + le128(subidentifier) == [old(subidentifier) % 128] + le128(old(subidentifier) // 128)],
          decreases=subidentifier)
+
+
+fields("MembersType", root_members=ObjSeq("Type"), additions=Opt(AbsList))
+formatting("asn1tools/codecs/__init__.py::BaseType.__repr__")
+
+
+@contract("asn1tools/codecs/__init__.py", "BaseType.get_default", abstract=True)
+def _(self) -> Val:
+    ensures(True)
+
+
+@contract("MembersType.decode_members", props=["C08", "C16", "C04", "C15", "C07"], for_class="any")
+def _(self, members: ObjSeq("Type"), data: ByteArray, values: AbsDict, offset: Nat, end_offset: Opt(Int),
+      ignore_missing: Bool) -> Tup(Int, Bool):
+    # unconditional half: the out-of-order member loop terminates (an outer round either decodes a member, which
+    # consumes at least one octet, or ends), never reads past the data, and raises only the listed errors
+    requires(offset <= len(data))
+    requires(end_offset is None or end_offset <= len(data))
+    inline("MissingMandatoryFieldError.__init__", "DecodeTagError.__init__", "DecodeError.__init__",
+           "ErrorWithLocation.__init__")
+    local(remaining_members=ObjSeq("Type"))
+    raises(DecodeError)
+    raises(UnicodeDecodeError)
+    raises(ValueError)
+    raises(IndexError)
+    raises(TypeError)
+    assigns(values)
+    ensures(result[0] >= offset and result[0] <= len(data))
+    # "out of data" means the end of the (definite) contents was reached or passed
+    ensures(implies(result[1] and end_offset is not None, result[0] >= end_offset))
+    loop(0, invariant=[offset >= old(offset), offset <= len(data)], decreases=len(data) - offset)
+    loop(1, invariant=[offset >= at_head(offset, 0), offset <= len(data),
+                       implies(decode_success, offset > at_head(offset, 0)),
+                       implies(out_of_data and end_offset is not None, offset >= end_offset)])
+    loop(2, invariant=[offset <= len(data)])
+
+
+@contract("flatten", abstract=True)
+def _(l: Val) -> ObjSeq("Type"):
+    # list of the member types of the additions (groups flattened); assumed: pure list helper, not verified
+    ensures(True)
+
+
+@contract("MembersType.decode_content", props=["C08", "C16", "C04", "C15", "C07"], for_class="any")
+def _(self, data: ByteArray, offset: Nat, length: Opt(Int)):
+    refines("StandardDecodeMixin.decode_content")
+    inline("NoEndOfContentsTagError.__init__", "DecodeError.__init__", "ErrorWithLocation.__init__")
+    # C07: with a definite length the whole announced contents are consumed, whatever trailing additions this
+    # version does not know (unknown TLVs are skipped via end_offset)
+    ensures(implies(length is not None, result[1] == offset + length or result[1] >= offset + length))
